@@ -47,7 +47,9 @@ def live_guards_at(fn, target_blocks):
             if s["k"] == "assign":
                 rv = s["rv"]
                 dst = s["place"]
-                moved = [o for o in rv.get("ops", []) if o.get("k") == "move" and not o["p"] and o["l"] in st]
+                # a guard moves with the value that holds it - the whole local, or the payload taken out of `Ok(guard)` by a `match`
+                # (`let queue = match receiver.lock() { Ok(guard) => guard, .. }` keeps it alive under a new name)
+                moved = [o for o in rv.get("ops", []) if o.get("k") == "move" and o["l"] in st]
                 for o in moved:
                     st.discard(o["l"])
                     if not dst["p"]:
